@@ -32,6 +32,7 @@ from typing import List
 from harness import _C07_ref as ref
 from harness import _C07_k4 as _k4
 from harness import _C07_k8 as _k8
+from harness import _C07_k9 as _k9
 from vsym import ob
 from vsym.ob import Ob
 
@@ -1158,6 +1159,77 @@ def _k8_obligations(tier: str) -> List[Ob]:
 
 # =========================================================================== registry
 
+# =========================================================================== K9: source lines of an instruction error
+
+K9_HEAD = '[setup]\n'
+REAL_K9 = REAL_K4 + (
+    'exactly_lib.section_document.element_parsers.parser_for_dictionary_of_instructions._ErrMsgSourceConstructor',
+    'exactly_lib.section_document.element_parsers.parser_for_dictionary_of_instructions.InstructionParserForDictionaryOfInstructions.parse',
+    'exactly_lib.section_document.element_parsers.optional_description_and_instruction_parser.InstructionWithOptionalDescriptionParser',
+)
+
+
+def _pre_k9(ind: str, c: int) -> bool:
+    case = ob.case()
+    if not (len(ind) == case['n'] and _in_alphabet(ind, case['alphabet'])):
+        return False
+    return 0 <= c <= len(case['body']) + 1
+
+
+def k9_error_source_lines(ind: str, c: int) -> bool:
+    """
+    pre: _pre_k9(ind, c)
+    post: _
+    """
+    case = ob.case()
+    text = K9_HEAD + case['before'] + ind + case['body']
+    start = len(K9_HEAD) + len(case['before']) + len(ind)
+    _k9.K9['c'] = c
+    err = _k9.real_error(text)
+    if err is None:
+        return ob.post(False)
+    end = _k9.K9['end']
+    return ob.post(end is not None and _k9.report_is_right(text, start, end, err[0], err[1], case.get('oracle_bug')))
+
+
+K9_BODIES = (
+    'f a\n b c\n\n  d\nf\n',
+    'f\n\t== 72 73\n',
+    'f <<E\nx\nE\n[act]\n',
+)
+
+
+def _k9_obligations(tier: str) -> List[Ob]:
+    obs = []
+    sym = (0, 1, 2) if tier == 'quick' else (0, 1, 2, 3, 4, 5)
+    wide = (8, 30) if tier == 'quick' else (6, 9, 12, 20, 30, 60)
+    bodies = K9_BODIES[:2] if tier == 'quick' else K9_BODIES
+
+    def add(name, n, alphabet, body, before='', timeout=600, **kw):
+        obs.append(Ob(
+            name=name, fn='k9_error_source_lines', kernel='K9',
+            case=dict(n=n, alphabet=alphabet, body=body, before=before, **kw),
+            bound='test-case text `[setup]` newline %r, an indentation of exactly %d characters of {%s}, then %r, where the '
+                  'instruction `f` reports an invalid argument after having consumed c characters of what follows its name, '
+                  'every 0 <= c <= %d (= everything): the error report begins at the line of `f`, has every line from which '
+                  'a character other than white space was consumed, no line beyond the last one touched, and their texts'
+                  % (before, n, ', '.join(_K6_NAMES.get(ch, repr(ch)) for ch in alphabet), body, len(body) + 1),
+            timeout=timeout, real=REAL_K9, stubs=(_k9.STUB,),
+            outside=('parsers that report the error after having consumed text that they then give back '
+                     '(none exists: ParseSource cannot move backwards)',),
+            entry='processors._Parser(parsing_setup).apply(TestCaseFileReference(file), text)',
+            **({'expect': ob.REFUTE} if kw.get('oracle_bug') else {})))
+
+    for bi, body in enumerate(bodies):
+        for n in sym:
+            add('K9:body%d:indent%d' % (bi, n), n, ' \t', body)
+        for n in wide:
+            add('K9:body%d:indent%d:spaces' % (bi, n), n, ' ', body)
+    add('K9:after-comment:indent2', 2, ' \t', K9_BODIES[0], before='# c\n\n')
+    add('K9:seeded-oracle-error', 2, ' ', K9_BODIES[0], oracle_bug='first-line-only', timeout=300)
+    return obs
+
+
 def obligations(tier: str) -> List[Ob]:
     obs = []
     obs += _k1_obligations(tier)
@@ -1168,6 +1240,7 @@ def obligations(tier: str) -> List[Ob]:
     obs += _k6_obligations(tier)
     obs += _k7_obligations(tier)
     obs += _k8_obligations(tier)
+    obs += _k9_obligations(tier)
     return obs
 
 
